@@ -454,6 +454,94 @@ pub fn generate(thorough: bool) -> Vec<Dup> {
         });
     }
 
+    // ---- 6/7 (c). the same among many other parameters: two occurrences (the valid one first or second) in a query
+    //      string of up to a thousand parameters, in four layouts (authentication parameters first / last; the two
+    //      occurrences at the two ends; next to each other in the middle) — which one is first does not change with
+    //      the length of the list or with how the other names sort
+    {
+        let sizes: Vec<usize> = if thorough { (0..=300).chain([400, 500, 700, 1000, 2000]).collect() } else { vec![10, 19, 20, 21, 32, 33, 48, 57, 58, 64, 100, 121, 128, 200, 256, 500, 1000] };
+        let names6 = ["X-Amz-Algorithm", "X-Amz-Credential", "X-Amz-Date", "X-Amz-SignedHeaders", "X-Amz-Security-Token", "X-Amz-Signature"];
+        for (which, pname) in names6.iter().enumerate() {
+            for k in [0usize, 1] {
+                for layout in 0..4usize {
+                    for &nby in &sizes {
+                        let mut plan = e2e::base_plan(Carrier::Query);
+                        plan.headers.push(("X-Extra".into(), b"e".to_vec()));
+                        plan.signed = vec!["host".into(), "x-extra".into()];
+                        plan.token = Some("VALID-TOKEN".into());
+                        // bystanders: upper-case-first names sort before X-Amz-*, lower-case ones after
+                        let by: Vec<(Vec<u8>, Vec<u8>)> = (0..nby)
+                            .map(|i| {
+                                let name = if layout == 2 { format!("zfilter.{:04}.name", (i * 37) % 10_000) } else { format!("Filter.{:04}.Name", (i * 37) % 10_000) };
+                                (name.into_bytes(), format!("v{}", i).into_bytes())
+                            })
+                            .collect();
+                        let mut others: Vec<(Vec<u8>, Vec<u8>)> = Vec::new();
+                        let (mut occ1, mut occ2): (Option<(Vec<u8>, Vec<u8>)>, Option<(Vec<u8>, Vec<u8>)>) = (None, None);
+                        for (j, (n2, v2, decoys)) in qparams.iter().enumerate() {
+                            if j == which {
+                                let (a, b) = if k == 0 { (v2.clone(), decoys[0].clone()) } else { (decoys[0].clone(), v2.clone()) };
+                                occ1 = Some((n2.as_bytes().to_vec(), a.into_bytes()));
+                                occ2 = Some((n2.as_bytes().to_vec(), b.into_bytes()));
+                            } else {
+                                others.push((n2.as_bytes().to_vec(), v2.clone().into_bytes()));
+                            }
+                        }
+                        let is_sig = *pname == "X-Amz-Signature";
+                        if is_sig && k == 1 {
+                            // a decoy signature in front; the valid one is appended last by the signer
+                            occ1 = Some((b"X-Amz-Signature".to_vec(), vec![b'0'; 64]));
+                        }
+                        let mut list: Vec<(Vec<u8>, Vec<u8>)> = Vec::new();
+                        match layout {
+                            0 => {
+                                list.extend(occ1.clone());
+                                list.extend(others.clone());
+                                list.extend(by.clone());
+                                list.extend(occ2.clone());
+                            }
+                            1 => {
+                                plan.url_params = by.clone();
+                                list.extend(others.clone());
+                                list.extend(occ1.clone());
+                                list.extend(occ2.clone());
+                            }
+                            2 => {
+                                list.extend(occ1.clone());
+                                list.extend(by.clone());
+                                list.extend(others.clone());
+                                list.extend(occ2.clone());
+                            }
+                            _ => {
+                                list.extend(others.clone());
+                                list.extend(by[..nby / 2].iter().cloned());
+                                list.extend(occ1.clone());
+                                list.extend(occ2.clone());
+                                list.extend(by[nby / 2..].iter().cloned());
+                            }
+                        }
+                        plan.query_auth_override = Some(list);
+                        let built = build(&plan);
+                        let mut w = WireReq::from_wire(&built.wire);
+                        if is_sig && k == 0 {
+                            // the valid signature is where the signer put it; a decoy follows it
+                            w.uri.push_str(&format!("&X-Amz-Signature={}", "f".repeat(64)));
+                        }
+                        let is_token = *pname == "X-Amz-Security-Token";
+                        out.push(Dup {
+                            label: format!("{} twice among {} other parameters, layout {}, valid@{}", pname, nby, layout, k),
+                            wire: w,
+                            cfg: cfg.clone(),
+                            expect_ok: k == 0 || is_token,
+                            expect_ask: Some((e2e::ACCESS_KEY.into(), Some(if !is_token || k == 0 { "VALID-TOKEN".to_string() } else { "DECOY-0".to_string() }))),
+                            expect_both_carriers: false,
+                        });
+                    }
+                }
+            }
+        }
+    }
+
     // ---- 6/7 (b). the same with one of the occurrences spelled differently on the wire (escaped '-' in the name,
     //      either hex case): which occurrence is first is a matter of position in the query string, not of spelling
     {
@@ -845,7 +933,7 @@ pub fn run(ctx: &Ctx) -> Report {
     });
     Report {
         stats: st,
-        rule: "for each duplicable input — Authorization header (4 decoy kinds, with/without interleaved headers); Credential / SignedHeaders / Signature inside it (2 separators), the same with 0..9 unknown fields in front and 0..300 unknown fields between the two occurrences (field counts across 8, 16, 32, 64, 256), and differently-cased look-alikes of those names before/after the real ones (24 runs each); X-Amz-Date header (signed or not); X-Amz-Date vs Date in both orders; X-Amz-Security-Token header (also with a first token of 4 .. 64 KiB); every case with a repeated Authorization / date header again with the first occurrence padded by 8193 / 70000 bytes that do not change its meaning; query X-Amz-Algorithm / -Credential / -Date / -SignedHeaders / -Security-Token (adjacent or spread) and X-Amz-Signature, also with either occurrence's name spelled with escaped hyphens — 2 or 3 occurrences with differing values and the single valid value at every position; the request is signed as received (all values in the canonical form) with the valid occurrence's data, so it validates iff the documented rule selects that occurrence; each X-Amz-* parameter once in the URL and once in a folded form body (valid one in either place, body with fewer or more names than the URL); inputs of the carrier that is NOT in use present as decoys (X-Amz-* query parameters next to an Authorization header; date / token / credential headers next to query authentication); plus Authorization together with X-Amz-Algorithm (3 values) in the URL, in a folded body and as a complete second authentication; thorough adds all pairs of duplicated date x token. Oracle: generator's expectation (independent of the reference verifier, and cross-checked against it), error kind and provider identity. states = (stage, identity seen by provider)".into(),
+        rule: "for each duplicable input — Authorization header (4 decoy kinds, with/without interleaved headers); Credential / SignedHeaders / Signature inside it (2 separators), the same with 0..9 unknown fields in front and 0..300 unknown fields between the two occurrences (field counts across 8, 16, 32, 64, 256), and differently-cased look-alikes of those names before/after the real ones (24 runs each); X-Amz-Date header (signed or not); X-Amz-Date vs Date in both orders; X-Amz-Security-Token header (also with a first token of 4 .. 64 KiB); every case with a repeated Authorization / date header again with the first occurrence padded by 8193 / 70000 bytes that do not change its meaning; query X-Amz-Algorithm / -Credential / -Date / -SignedHeaders / -Security-Token (adjacent or spread) and X-Amz-Signature, also with either occurrence's name spelled with escaped hyphens, and twice among 10 .. 1000 (thorough: every count 0 .. 300, and up to 2000) other parameters in four layouts (authentication parameters first / last, the two occurrences at the two ends, adjacent in the middle; other names sorting before or after X-Amz-*) — 2 or 3 occurrences with differing values and the single valid value at every position; the request is signed as received (all values in the canonical form) with the valid occurrence's data, so it validates iff the documented rule selects that occurrence; each X-Amz-* parameter once in the URL and once in a folded form body (valid one in either place, body with fewer or more names than the URL); inputs of the carrier that is NOT in use present as decoys (X-Amz-* query parameters next to an Authorization header; date / token / credential headers next to query authentication); plus Authorization together with X-Amz-Algorithm (3 values) in the URL, in a folded body and as a complete second authentication; thorough adds all pairs of duplicated date x token. Oracle: generator's expectation (independent of the reference verifier, and cross-checked against it), error kind and provider identity. states = (stage, identity seen by provider)".into(),
         bounds: json!({"cases": n, "occurrences": [2, 3]}),
         exhaustive: true,
         assumptions: vec![],
